@@ -2,6 +2,7 @@ package graphicsstate
 
 import (
 	"fmt"
+	"math"
 
 	"github.com/tsawler/tabula/model"
 )
@@ -303,17 +304,14 @@ func (gs *GraphicsState) GetFontSize() float64 {
 func (gs *GraphicsState) GetEffectiveFontSize() float64 {
 	baseFontSize := gs.Text.FontSize
 
-	// The text matrix is [a b c d e f]
-	// For vertical scaling (typical font size), we use element d (index 3)
-	// For horizontal scaling, we use element a (index 0)
-	// We take the maximum to handle both cases
-	verticalScale := abs(gs.Text.TextMatrix[3])   // d component
-	horizontalScale := abs(gs.Text.TextMatrix[0]) // a component
-
-	// Use the larger of the two scales
-	scale := verticalScale
-	if horizontalScale > verticalScale {
-		scale = horizontalScale
+	// The text matrix is [a b c d e f]. A glyph of height 1 in text space is
+	// the vector (0, 1); the text matrix maps it to (c, d), so the vertical
+	// scale is the length of (c, d). This also holds when the matrix rotates
+	// or shears the text (for 0 1 -1 0 the scale is 1, not |d| = 0).
+	scale := math.Hypot(gs.Text.TextMatrix[2], gs.Text.TextMatrix[3])
+	if scale == 0 {
+		// Degenerate vertical axis - fall back to the horizontal scale
+		scale = math.Hypot(gs.Text.TextMatrix[0], gs.Text.TextMatrix[1])
 	}
 
 	return baseFontSize * scale
